@@ -206,6 +206,11 @@ fn main() {
         "overflow-child" => {
             let entry = arg(&args, "--entry").unwrap_or("arc_sized");
             let start: usize = arg(&args, "--start").and_then(|s| s.parse().ok()).unwrap_or(1);
+            if flag(&args, "--unwinding") {
+                overflow::WHILE_UNWINDING.store(true, std::sync::atomic::Ordering::Relaxed);
+                // the first (deliberate) panic must not try to print to a possibly broken stderr
+                std::panic::set_hook(Box::new(|_| {}));
+            }
             std::process::exit(overflow::child(entry, start));
         }
         #[cfg(feature = "cfg_a")]
